@@ -211,6 +211,43 @@ FlattenEv(e) ==
 \* -------------------------------------------------------------------- Obs
 \* observations other than the full battery carry no data to judge; their effect (none is allowed) shows in later batteries
 LightObsEv(e) == UNCHANGED <<heap, env, applied, flats, fails, nobs>>
+
+\* C18: the drawing shows the schedule.  Rows = requested order followed by the remaining occupied channels; labels; width =
+\* max(1, latest end) + 1; every component sits at the start time of its operation under the drawing's durations (compact
+\* drawing uses its own global durations) on the rows of its qubits; an unknown channel in the order is rejected.
+VisGlobal == [RO |-> 8, MW |-> 4, FL |-> 4, RST |-> 8]
+FirstRowOnly == {"CoordinateShiftOperation"}                     \* multi-qubit annotation drawn by the default component on its first channel
+NotDrawn == {"TwoQubitVirtualPhase", "TwoQubitOperation"}      \* two-qubit kinds the drawer has no component for
+DrawEv(e) ==
+  LET d == e.draw  c == e.c  H == heap
+      E == IF d.compact THEN [env EXCEPT !.glob = Append(@, VisGlobal)] ELSE env
+      leaves == LeavesOf(H, c)
+      valid == Range(d.order) \subseteq Range(d.occupied)
+      rows == d.order \o SelectSeq(d.occupied, LAMBDA x : x \notin Range(d.order))
+      lab(ch) == LET m == {j \in 1..Len(d.labels) : d.labels[j][1] = ch} IN IF m = {} THEN ToString(ch) ELSE d.labels[CHOOSE j \in m : TRUE][2]
+      rowOf(qb) == CHOOSE j \in 1..Len(d.rows) : d.rows[j] = qb
+      maxEnd == IF Range(leaves) = {} THEN 0 ELSE MaxOf({EndOf(H, E, i) : i \in Range(leaves)})
+      cl ==
+        IF ~valid THEN When(d.result = "rejected", Fail("C18.reject", c, <<"order", d.order, "occupied", d.occupied, "result", d.result>>))
+        ELSE IF d.result # "ok" THEN {Fail("C18.success", c, d.result)}
+        ELSE When(d.rows = rows, Fail("C18.rows", c, <<"rows", d.rows, "expected", rows>>))
+             \cup When(d.label_map = [j \in 1..Len(d.rows) |-> <<j - 1, lab(d.rows[j])>>], Fail("C18.labels", c, d.label_map))
+             \cup When(d.width = (IF maxEnd > 4 THEN maxEnd ELSE 4) + 4, Fail("C18.width", c, <<"width", d.width, "latest end", maxEnd>>))
+             \cup When(Range(d.ops) = Range(leaves), Fail("C18.operations", c, <<Len(d.ops), Cardinality(Range(leaves))>>))
+             \* every drawn component is one operation at its start time / extent / rows, and every operation of a kind the drawer
+             \* renders has its component (components are not emitted in listing order: compare as multisets)
+             \cup (IF Range(d.ops) \subseteq DOMAIN H /\ d.rows = rows
+                   THEN LET drawn == {o \in Range(d.ops) : H[o].kind \notin NotDrawn}
+                            expect(o) == LET rs == IF H[o].kind \in FirstRowOnly THEN {rowOf(H[o].qs[1])} ELSE {rowOf(H[o].qs[j]) : j \in 1..Len(H[o].qs)} IN
+                                         [x |-> StartOf(H, E, o), y10 |-> -((MaxOf(rs) - 1) * 12) - 5, h10 |-> (MaxOf(rs) - MinOf(rs)) * 12 + 10]
+                            pos(cp) == [x |-> cp.x, y10 |-> cp.y10, h10 |-> cp.h10]     \* horizontal position and rows (the drawn width is the icon's business)
+                            vals == {expect(o) : o \in drawn} \cup {pos(d.comps[k]) : k \in 1..Len(d.comps)}
+                            nExp(v) == Cardinality({o \in drawn : expect(o) = v})
+                            nGot(v) == Cardinality({k \in 1..Len(d.comps) : pos(d.comps[k]) = v})
+                        IN UNION {When(nExp(v) = nGot(v), Fail("C18.x", c, <<"placement", v, "operations there", nExp(v), "components there", nGot(v)>>)) : v \in vals}
+                   ELSE {})
+  IN /\ fails' = fails \cup Tag(IF c \in DOMAIN heap THEN cl ELSE {})
+     /\ UNCHANGED <<heap, env, applied, flats, nobs>>
 ObsEv(e) ==
   LET known == e.c \in DOMAIN heap
       cl == IF known THEN ObsClausesMarked(heap, env, e.c, e.snap, [applied |-> e.c \in applied, implicit |-> e.implicit]) ELSE {Fail("C02.unknown_circuit", e.c, <<>>)}
@@ -242,7 +279,8 @@ Step ==
          [] e.ev = "Apply"    -> ApplyEv(e)
          [] e.ev = "Flatten"  -> FlattenEv(e)
          [] e.ev = "Obs" /\ e.what = "full" -> ObsEv(e)
-         [] e.ev = "Obs" /\ e.what # "full" -> LightObsEv(e)
+         [] e.ev = "Obs" /\ e.what \in {"draw", "drawnc"} -> DrawEv(e)
+         [] e.ev = "Obs" /\ e.what \notin {"full", "draw", "drawnc"} -> LightObsEv(e)
          [] e.ev \in {"SetDur", "SetRep", "Enter", "Leave"} -> EnvEv(e)
          [] e.ev = "Error"    -> ErrorEv(e)
          [] OTHER -> /\ fails' = fails \cup Tag({Fail("C00.unknown_event", e.ev, <<>>)}) /\ UNCHANGED <<heap, env, applied, flats, nobs>>
